@@ -3,7 +3,7 @@
    pyxel/util/randomize.py, exposure.py, observation*.py, calibration/*.py and pyxel/models/**.
    Every statement quantifies over ALL generators (type of states, type of values, seeding function,
    transition function per kind of draw), all seeds, all bodies, all prior generator states. *)
-From Coq Require Import ZArith List Bool String.
+From Coq Require Import ZArith List Bool String Permutation.
 From PyxelV Require Import Model.Rng Proofs.Rng.
 From PyxelGen Require Import Gen_C04.
 Import ListNotations.
@@ -16,40 +16,40 @@ Print Assumptions C04_bracket_as_coded.
 
 (* after `with set_random_seed(s): p` the generator is exactly what it was, however p ends *)
 Theorem C04_restores :
-  forall gen val seed_gen next (s : Z) (p : prog) (g : gen),
-    gen_after gen val seed_gen next src_srs_cfg (Seeded (Some s) p) g = g.
+  forall gen val seed_gen next swap (s : Z) (p : prog) (g : gen),
+    gen_after gen val seed_gen next src_srs_cfg swap (Seeded (Some s) p) g = g.
 Proof. intros. apply restores. exact C04_bracket_as_coded. Qed.
 Print Assumptions C04_restores.
 
 Theorem C04_restores_when_raising :
-  forall gen val seed_gen next (s : Z) (p : prog) (g : gen),
-    result gen val seed_gen next src_srs_cfg p (seed_gen s) = Raised ->
-    gen_after gen val seed_gen next src_srs_cfg (Seeded (Some s) p) g = g /\
-    result gen val seed_gen next src_srs_cfg (Seeded (Some s) p) g = Raised.
+  forall gen val seed_gen next swap (s : Z) (p : prog) (g : gen),
+    result gen val seed_gen next src_srs_cfg swap p (seed_gen s) = Raised ->
+    gen_after gen val seed_gen next src_srs_cfg swap (Seeded (Some s) p) g = g /\
+    result gen val seed_gen next src_srs_cfg swap (Seeded (Some s) p) g = Raised.
 Proof. intros. apply restores_when_raising; [exact C04_bracket_as_coded | assumption]. Qed.
 Print Assumptions C04_restores_when_raising.
 
 (* non-vacuity: a body that draws and then raises, on the free generator, from a non-trivial state *)
 Example C04_restores_when_raising_witness :
-  result fgen fgen fseed fnext src_srs_cfg (Seq (Draw 0) Raise) (fseed 5) = Raised /\
-  gen_after fgen fgen fseed fnext src_srs_cfg (Seeded (Some 5) (Seq (Draw 0) Raise)) (OInit 3, [1; 2])
+  result fgen fgen fseed fnext src_srs_cfg no_swap (Seq (Draw 0) Raise) (fseed 5) = Raised /\
+  gen_after fgen fgen fseed fnext src_srs_cfg no_swap (Seeded (Some 5) (Seq (Draw 0) Raise)) (OInit 3, [1; 2])
   = (OInit 3, [1; 2]).
 Proof. vm_compute. split; reflexivity. Qed.
 
 (* drawn values, probed states and the outcome of a seeded block do not depend on the prior state *)
 Theorem C04_deterministic :
-  forall gen val seed_gen next (s : Z) (p : prog) (g1 g2 : gen),
-    visible gen val seed_gen next src_srs_cfg (Seeded (Some s) p) g1 =
-    visible gen val seed_gen next src_srs_cfg (Seeded (Some s) p) g2.
+  forall gen val seed_gen next swap (s : Z) (p : prog) (g1 g2 : gen),
+    visible gen val seed_gen next src_srs_cfg swap (Seeded (Some s) p) g1 =
+    visible gen val seed_gen next src_srs_cfg swap (Seeded (Some s) p) g2.
 Proof. intros. apply deterministic. exact C04_bracket_as_coded. Qed.
 Print Assumptions C04_deterministic.
 
 (* a model-level bracket inside the pipeline-level bracket preserves both streams *)
 Theorem C04_nested :
-  forall gen val seed_gen next (s s' : Z) (p q r : prog) (g : gen),
-    let ga := gen_after gen val seed_gen next src_srs_cfg in
-    let ev := events gen val seed_gen next src_srs_cfg in
-    let rs := result gen val seed_gen next src_srs_cfg in
+  forall gen val seed_gen next swap (s s' : Z) (p q r : prog) (g : gen),
+    let ga := gen_after gen val seed_gen next src_srs_cfg swap in
+    let ev := events gen val seed_gen next src_srs_cfg swap in
+    let rs := result gen val seed_gen next src_srs_cfg swap in
     let outer := Seeded (Some s) (Seq p (Seq (Seeded (Some s') q) r)) in
     ga outer g = g /\
     (rs p (seed_gen s) = Done ->
@@ -62,15 +62,15 @@ Proof. intros. apply nested. exact C04_bracket_as_coded. Qed.
 Print Assumptions C04_nested.
 
 Example C04_nested_witness :
-  events fgen fgen fseed fnext src_srs_cfg
+  events fgen fgen fseed fnext src_srs_cfg no_swap
     (Seeded (Some 1) (Seq (Draw 0) (Seq (Seeded (Some 2) (Draw 5)) (Seq (Draw 0) Observe)))) g_init
   = [EvDraw (OSeed 1, [0]); EvDraw (OSeed 2, [5]); EvDraw (OSeed 1, [0; 0]); EvState (OSeed 1, [0; 0])].
 Proof. vm_compute. reflexivity. Qed.
 
 (* seed None: the bracket is invisible *)
 Theorem C04_unseeded_transparent :
-  forall gen val seed_gen next (p : prog) (g : gen),
-    exec gen val seed_gen next src_srs_cfg (Seeded None p) g = exec gen val seed_gen next src_srs_cfg p g.
+  forall gen val seed_gen next swap (p : prog) (g : gen),
+    exec gen val seed_gen next src_srs_cfg swap (Seeded None p) g = exec gen val seed_gen next src_srs_cfg swap p g.
 Proof. intros. apply unseeded_transparent. Qed.
 Print Assumptions C04_unseeded_transparent.
 
@@ -80,6 +80,70 @@ Theorem C04_self_seeded_reproducible :
   forall p, self_seeded p = true -> reproducible_and_restored src_srs_cfg p.
 Proof. intros. apply self_seeded_reproducible; [exact C04_bracket_as_coded | assumption]. Qed.
 Print Assumptions C04_self_seeded_reproducible.
+
+(* ---- what the bracket guarantees: ONE thread of control over the process-wide generator ---- *)
+
+(* All theorems above run a program by one thread.  Seen from the generator that means: brackets are
+   entered and left in LIFO order.  Stated on its own, for ANY trace of enter/exit operations by ANY
+   number of threads (each exit restores what that thread's bracket saved): if the order is LIFO the
+   generator ends where it started. *)
+Theorem C04_one_thread_of_control :
+  forall (gen : Type) (seed_gen : Z -> gen) (tr : list bstep) (g : gen),
+    lifo tr = true -> run_steps gen seed_gen tr g [] = (g, []).
+Proof. intros. apply lifo_restores. assumption. Qed.
+Print Assumptions C04_one_thread_of_control.
+
+(* every program of the model produces such a trace (this is what the correspondence compares with the
+   np.random.seed / set_state calls really observed, seeds included) *)
+Theorem C04_programs_are_lifo : forall p, lifo (btrace p) = true.
+Proof. exact btrace_lifo. Qed.
+Print Assumptions C04_programs_are_lifo.
+
+(* and the hypothesis is needed: two threads whose brackets overlap without nesting leave the generator
+   in the first one's seeded stream.  Thread interleavings are the subject of C07; here the harness
+   only CHECKS (in Coq, on every observed trace) that the runs it judges were LIFO. *)
+Theorem C04_interleaved_brackets_leak :
+  let tr := [BEnter 1 1; BEnter 2 2; BExit 1; BExit 2] in
+  lifo tr = false /\ fst (run_steps fgen fseed tr g_init []) = fseed 1 /\ fseed 1 <> g_init.
+Proof. exact interleaved_brackets_leak. Qed.
+Print Assumptions C04_interleaved_brackets_leak.
+
+Example C04_trace_witness :
+  btrace (mode_prog MExposure true (Some 0) [Seq (Draw 1) (Seeded (Some 7) (Draw 2)); Draw 3])
+  = [BEnter 0 0; BEnter 0 7; BExit 0; BExit 0] /\
+  lifo [BEnter 3 0; BEnter 3 7; BExit 3; BEnter 4 9; BExit 4; BExit 3] = true.
+Proof. vm_compute. split; reflexivity. Qed.
+
+(* ---- from one interpreter process to another (PYTHONHASHSEED) ---- *)
+
+(* if, in addition, no part of the program runs in an order the process chooses (iteration over a set /
+   a dict-keys set operation), two different PROCESSES - any two hash orders - see the same thing *)
+Theorem C04_reproducible_across_processes :
+  forall p, self_seeded p = true -> hash_stable p = true -> reproducible_across_processes src_srs_cfg p.
+Proof. intros. apply self_seeded_stable_across_processes; [exact C04_bracket_as_coded | assumption | assumption]. Qed.
+Print Assumptions C04_reproducible_across_processes.
+
+(* and the condition is needed: a seeded block that draws while iterating over a hash-ordered collection
+   still restores the generator and is reproducible INSIDE one process, but not across processes *)
+Theorem C04_unordered_iteration_not_reproducible :
+  let p := Seeded (Some 5) (Unord 0 (Draw 0) (Draw 1)) in
+  ~ reproducible_across_processes src_srs_cfg p /\ reproducible_and_restored src_srs_cfg p.
+Proof. apply unordered_not_reproducible. exact C04_bracket_as_coded. Qed.
+Print Assumptions C04_unordered_iteration_not_reproducible.
+
+(* the running modes add no process-chosen order of their own *)
+Theorem C04_modes_reproducible_across_processes :
+  forall m s bodies, forallb hash_stable bodies = true ->
+    reproducible_across_processes src_srs_cfg (mode_prog m true (Some s) bodies).
+Proof. intros. apply mode_reproducible_across_processes; [exact C04_bracket_as_coded | assumption]. Qed.
+Print Assumptions C04_modes_reproducible_across_processes.
+
+Example C04_across_processes_witness :
+  self_seeded (mode_prog MObservation true (Some 0) [Seq (Draw 3) Observe; Draw 4]) = true /\
+  hash_stable (mode_prog MObservation true (Some 0) [Seq (Draw 3) Observe; Draw 4]) = true /\
+  visible fgen fgen fseed fnext src_srs_cfg (fswap 0) (Seeded (Some 5) (Unord 0 (Draw 0) (Draw 1))) g_init <>
+  visible fgen fgen fseed fnext src_srs_cfg (fswap 1) (Seeded (Some 5) (Unord 0 (Draw 0) (Draw 1))) g_init.
+Proof. vm_compute. repeat split; try reflexivity. discriminate. Qed.
 
 (* ---- the running modes, with the seed each one ACTUALLY forwards (src_links, regenerated) ---- *)
 
@@ -98,42 +162,102 @@ Theorem C04_mode_reproducible_observation_dask :
 Proof. apply mode_reproducible_fw; [exact C04_bracket_as_coded | vm_compute; reflexivity]. Qed.
 Print Assumptions C04_mode_reproducible_observation_dask.
 
-(* calibration: the full statement, kept visible.  On the unchanged tree it is FALSE: run_calibration
-   does not hand pipeline_seed to ModelFittingDataTree (link "Calibration.run_calibration ->
-   ModelFittingDataTree" is false), so every fitness evaluation runs unseeded. *)
-Definition C04_mode_reproducible_calibration_full : Prop :=
+(* ---- every way a seed reaches a run: constructor, YAML builder, attribute setter, override key ---- *)
+
+(* whatever the door (any entry name) and whatever the seed - 0 and 2^32-1 included, and "no seed" -
+   what arrives at set_random_seed is exactly what was given *)
+Theorem C04_seed_arrives_exposure :
+  forall e s, seed_through src_links "exposure" e s = s.
+Proof. apply forwards_seed_through. vm_compute. reflexivity. Qed.
+Print Assumptions C04_seed_arrives_exposure.
+
+Theorem C04_seed_arrives_observation :
+  forall e s, seed_through src_links "observation" e s = s /\ seed_through src_links "observation_dask" e s = s.
+Proof. intros; split; apply forwards_seed_through; vm_compute; reflexivity. Qed.
+Print Assumptions C04_seed_arrives_observation.
+
+Example C04_seed_entries_nonvacuous :
+  forallb (fun e => existsb (fun r => on_path "exposure" e r && negb (String.eqb (link_entry r) "")) src_links)
+          ["ctor"; "yaml"; "setter"; "override"]%string = true /\
+  seed_through src_links "exposure" "override" (Some 0) = Some 0.
+Proof. vm_compute. split; reflexivity. Qed.
+
+(* no seed is ever tested for truthiness (`if seed`, `seed or ..`, `.. if seed else ..`, `if value` in a
+   seed setter) in the running modes, run.py, the configuration builders or any model function *)
+Theorem C04_no_seed_truthiness : src_seed_truthiness = [].
+Proof. vm_compute. reflexivity. Qed.
+Print Assumptions C04_no_seed_truthiness.
+
+(* why such a test matters: it loses exactly the legal seed 0, and then the run configured with seed 0
+   is the unseeded run, which is not reproducible *)
+Theorem C04_truthiness_loses_zero :
+  (forall s, apply_xfer XTruthy (Some s) = (if s =? 0 then None else Some s)) /\
+  (forall m, ~ (forall bodies,
+        reproducible_and_restored src_srs_cfg (mode_prog m true (apply_xfer XTruthy (Some 0)) bodies))).
+Proof. split; [apply truthy_loses_only_zero | apply truthy_link_not_reproducible]. Qed.
+Print Assumptions C04_truthiness_loses_zero.
+
+(* calibration (C04-F1 repaired: run_calibration hands pipeline_seed to ModelFittingDataTree): every
+   fitness evaluation and every champion re-run sits inside the bracket with the seed that was given *)
+Theorem C04_mode_reproducible_calibration :
   mode_reproducible src_srs_cfg (forwards_of src_links "calibration") MCalibration.
+Proof. apply mode_reproducible_fw; [exact C04_bracket_as_coded | vm_compute; reflexivity]. Qed.
+Print Assumptions C04_mode_reproducible_calibration.
 
-Theorem C04_mode_reproducible_calibration_refuted : ~ C04_mode_reproducible_calibration_full.
-Proof.
-  unfold C04_mode_reproducible_calibration_full.
-  replace (forwards_of src_links "calibration") with false by (vm_compute; reflexivity).
-  apply mode_not_reproducible_unforwarded.
-Qed.
-Print Assumptions C04_mode_reproducible_calibration_refuted.
+Theorem C04_seed_arrives_calibration :
+  forall e s, seed_through src_links "calibration" e s = s.
+Proof. apply forwards_seed_through. vm_compute. reflexivity. Qed.
+Print Assumptions C04_seed_arrives_calibration.
 
-(* what IS true of calibration as coded: the pipeline seed is ignored (same program as with no seed),
-   and it is reproducible exactly when every stochastic model carries its own seed *)
-Theorem C04_mode_reproducible_calibration_partial :
-  (forall seed bodies,
-     mode_prog MCalibration (forwards_of src_links "calibration") seed bodies =
-     mode_prog MCalibration (forwards_of src_links "calibration") None bodies) /\
-  (forall seed bodies, forallb self_seeded bodies = true ->
-     reproducible_and_restored src_srs_cfg
-       (mode_prog MCalibration (forwards_of src_links "calibration") seed bodies)).
-Proof.
-  split.
-  - replace (forwards_of src_links "calibration") with false by (vm_compute; reflexivity).
-    intros. apply unforwarded.
-  - intros. apply mode_reproducible_self_seeded_bodies; [exact C04_bracket_as_coded | assumption].
-Qed.
-Print Assumptions C04_mode_reproducible_calibration_partial.
+Example C04_calibration_witness :
+  self_seeded (mode_prog MCalibration (forwards_of src_links "calibration") (Some 0) [Draw 1; Seq Observe (Draw 2)]) = true /\
+  seed_through src_links "calibration" "setter" (Some 0) = Some 0.
+Proof. vm_compute. split; reflexivity. Qed.
+
+(* independently of any pipeline seed: a run (any mode, seed forwarded or not, seed given or not) whose
+   stochastic models all carry their own seed is reproducible and leaves the generator alone *)
+Theorem C04_self_seeded_bodies_reproducible :
+  forall m fw seed bodies, forallb self_seeded bodies = true ->
+    reproducible_and_restored src_srs_cfg (mode_prog m fw seed bodies).
+Proof. intros. apply mode_reproducible_self_seeded_bodies; [exact C04_bracket_as_coded | assumption]. Qed.
+Print Assumptions C04_self_seeded_bodies_reproducible.
 
 (* the optimiser seed reaches pygmo's global generator and the archipelago (plumbing only; pygmo's
    generator itself is outside the model) *)
 Theorem C04_pygmo_seed_forwarded : forwards_of src_links "calibration_pygmo" = true.
 Proof. vm_compute. reflexivity. Qed.
 Print Assumptions C04_pygmo_seed_forwarded.
+
+(* ArchipelagoDataTree._build, both branches (table regenerated): the islands are pushed in SUBMISSION
+   order, so island i has seed i whatever order the island-creating threads finish in *)
+Theorem C04_islands_get_their_seed :
+  forall r, In r src_island_build -> forall seeds order,
+    Permutation order (seq 0 (List.length seeds)) -> islands (snd r) seeds order = seeds.
+Proof. apply build_table_order_independent. vm_compute. reflexivity. Qed.
+Print Assumptions C04_islands_get_their_seed.
+
+Theorem C04_island_branches_read :
+  build_of src_island_build "parallel" = BMap /\ build_of src_island_build "sequential" = BMap.
+Proof. vm_compute. split; reflexivity. Qed.
+Print Assumptions C04_island_branches_read.
+
+(* why the construction matters: pushing the islands as they complete makes the archipelago a function
+   of thread timing (it IS the completion order); it is right only if the tasks happen to finish in order *)
+Theorem C04_as_completed_depends_on_order :
+  (forall seeds order, islands BAsCompleted seeds order = map (fun i => nth i seeds (-1)) order) /\
+  (forall seeds, islands BAsCompleted seeds (seq 0 (List.length seeds)) = seeds) /\
+  (exists seeds o1 o2, Permutation o1 (seq 0 (List.length seeds)) /\ Permutation o2 (seq 0 (List.length seeds)) /\
+     islands BAsCompleted seeds o1 <> islands BAsCompleted seeds o2).
+Proof.
+  split; [apply islands_as_completed|]. split; [apply islands_as_completed_in_order|].
+  apply islands_as_completed_depends_on_order.
+Qed.
+Print Assumptions C04_as_completed_depends_on_order.
+
+Example C04_islands_witness :
+  islands (build_of src_island_build "parallel") [11; 22; 33] [2; 0; 1]%nat = [11; 22; 33] /\
+  islands BAsCompleted [11; 22; 33] [2; 0; 1]%nat = [33; 11; 22].
+Proof. vm_compute. split; reflexivity. Qed.
 
 (* ---- every model function with a `seed` parameter ---- *)
 
@@ -144,9 +268,10 @@ Print Assumptions C04_models_bracketed.
 Theorem C04_models_reproducible :
   forall r, In r src_seeded_models -> forall s k,
     reproducible_and_restored src_srs_cfg (model_prog r (Some s) k) /\
-    (forall gen val seed_gen next g,
-       exec gen val seed_gen next src_srs_cfg (model_prog r None k) g =
-       exec gen val seed_gen next src_srs_cfg (if 0 <? m_inside r then Draw (2 * k) else Skip) g).
+    bracket_seed r (Some s) = Some s /\
+    (forall gen val seed_gen next swap g,
+       exec gen val seed_gen next src_srs_cfg swap (model_prog r None k) g =
+       exec gen val seed_gen next src_srs_cfg swap (inside_prog r k) g).
 Proof.
   apply models_bracketed_reproducible; [exact C04_bracket_as_coded | exact C04_models_bracketed].
 Qed.
@@ -156,29 +281,34 @@ Example C04_models_table_nonempty : (10 <=? Z.of_nat (List.length src_seeded_mod
   /\ existsb (fun r => 0 <? m_inside r) src_seeded_models = true.
 Proof. vm_compute. split; reflexivity. Qed.
 
+(* no seeded model function (nor a helper it calls) iterates over a hash-ordered collection ... *)
+Theorem C04_models_order_stable : forallb order_stable src_seeded_models = true.
+Proof. vm_compute. reflexivity. Qed.
+Print Assumptions C04_models_order_stable.
+
+(* ... hence a model given its own seed returns the same thing in every interpreter process *)
+Theorem C04_models_reproducible_across_processes :
+  forall r, In r src_seeded_models -> forall s k,
+    reproducible_across_processes src_srs_cfg (model_prog r (Some s) k).
+Proof.
+  apply models_stable_across_processes;
+    [exact C04_bracket_as_coded | exact C04_models_bracketed | exact C04_models_order_stable].
+Qed.
+Print Assumptions C04_models_reproducible_across_processes.
+
 (* ---- nobody else touches the process-wide generator's seed ---- *)
 
-(* full statement: no np.random.seed / set_state call anywhere outside util/randomize.py.
-   FALSE on the unchanged tree: pulse_processing calls np.random.seed(42) with no bracket. *)
-Definition C04_no_global_seeding_full : Prop := src_seed_sites = [].
-
-Theorem C04_no_global_seeding_refuted : ~ C04_no_global_seeding_full.
-Proof. unfold C04_no_global_seeding_full. vm_compute. discriminate. Qed.
-Print Assumptions C04_no_global_seeding_refuted.
-
-Definition known_seed_sites : list string :=
-  ["pyxel.models.phasing.pulse_processing.pulse_processing"%string].
-
-Theorem C04_no_global_seeding_partial :
-  forallb (fun s => string_in (fst s) known_seed_sites) src_seed_sites = true.
+(* no np.random.seed / set_state call anywhere in pyxel/ outside util/randomize.py (C04-seed42 repaired:
+   pulse_processing draws inside `with set_random_seed(42)`) *)
+Theorem C04_no_global_seeding : src_seed_sites = [].
 Proof. vm_compute. reflexivity. Qed.
-Print Assumptions C04_no_global_seeding_partial.
+Print Assumptions C04_no_global_seeding.
 
-(* why such a site is a leak: whatever the generator was, afterwards it is the seeded one *)
+(* why such a call would be a leak: whatever the generator was, afterwards it is the seeded one *)
 Theorem C04_bare_seed_forgets :
-  forall gen val seed_gen next (s : Z) (g1 g2 : gen),
-    gen_after gen val seed_gen next src_srs_cfg (BareSeed s) g1 =
-    gen_after gen val seed_gen next src_srs_cfg (BareSeed s) g2.
+  forall gen val seed_gen next swap (s : Z) (g1 g2 : gen),
+    gen_after gen val seed_gen next src_srs_cfg swap (BareSeed s) g1 =
+    gen_after gen val seed_gen next src_srs_cfg swap (BareSeed s) g2.
 Proof. intros. apply bare_seed_forgets. Qed.
 Print Assumptions C04_bare_seed_forgets.
 
